@@ -32,22 +32,28 @@ theorem sortedOut_spec {s : Sorter} (h : SInv s) :
         · exact e3 x hx
   exact key s.sortedTiers h.look
 
+theorem applyPolicy_fields (r : Resolver) (k : PolicyKey) (m : Option PolMeta) :
+    (r.applyPolicy k m).sorter = (if !r.polHasMatch k then r.sorter else (r.sorter.updatePolicy k m).1) ∧
+    (r.applyPolicy k m).matched = r.matched ∧ (r.applyPolicy k m).allPolicies = r.allPolicies ∧
+    (r.applyPolicy k m).pending = r.pending ∧ (r.applyPolicy k m).endpoints = r.endpoints ∧
+    (r.applyPolicy k m).inSync = r.inSync := by
+  unfold Resolver.applyPolicy
+  by_cases hm : r.polHasMatch k = true
+  · simp only [hm, Bool.not_true, Bool.false_eq_true, if_false]
+    rcases hu : r.sorter.updatePolicy k m with ⟨s', d⟩
+    cases d <;> simp
+  · simp [hm]
+
 theorem SInv.step {r : Resolver} (h : SInv r.sorter) (e : Event) : SInv (r.step e).sorter := by
   cases e with
   | endpoint k v => cases v <;> exact h
   | policy k v =>
     simp only [Resolver.step]
-    cases v with
-    | none =>
-      simp only
-      split
-      · exact h
-      · split <;> exact h.updatePolicy k _
-    | some p =>
-      simp only
-      split
-      · exact h
-      · split <;> exact h.updatePolicy k _
+    have h1 : SInv (r.recordPolicy k v).sorter := by cases v <;> exact h
+    rw [(applyPolicy_fields _ _ _).1]
+    split
+    · exact h1
+    · exact h1.updatePolicy k _
   | tier name v => exact h.onTierUpdate name v
   | status b =>
     simp only [Resolver.step]
